@@ -153,11 +153,14 @@ class H2Protocol:
         else:
             self.connection.initiate_connection()
         await self._flush()
+        # The send task must be running before the upgrade request's
+        # stream is created, a response the stream generates itself
+        # (e.g. a 404 for an unknown host) waits to be sent.
+        self.task_group.spawn(self.send_task)
         if headers is not None:
             event = _SyntheticRequest(1, headers)
             await self._create_stream(event)
             await self.streams[event.stream_id].handle(EndBody(stream_id=event.stream_id))
-        self.task_group.spawn(self.send_task)
 
     async def send_task(self) -> None:
         # This should be run in a seperate task to the rest of this
